@@ -19,6 +19,10 @@ var props = map[string]sim.PropSpec{}
 func fixART(c *sim.Case) *sim.Case {
 	if c.Cfg["keys"] > 3 && c.Cfg["memtable_art"] == 1 {
 		c.Cfg["keys"] = 3
+		// folding six keys onto three makes "write each key once" scripts overwrite
+		if _, ok := c.Cfg["overwrite"]; ok {
+			c.Cfg["overwrite"] = 1
+		}
 	}
 	if c.Cfg["keys"] > 3 {
 		c.Cfg["reopen_flip"] = 0
